@@ -59,7 +59,10 @@ def handler_doc(progs):
     qml = HEAD
     for i, p in enumerate(progs):
         sig = p["sig"]
-        qml += "  TSource { id: s%d\n    on%s: %s\n  }\n" % (i, sig[0].upper() + sig[1:], lang.r_handler(p))
+        text = lang.r_handler(p)
+        if p.get("cm"):
+            text = lang.with_comments(text, p["cm"])        # the same handler with a comment between every two lines
+        qml += "  TSource { id: s%d\n    on%s: %s\n  }\n" % (i, sig[0].upper() + sig[1:], text)
     return qml + "}\n"
 
 
